@@ -677,12 +677,21 @@ class Engine(object):
             rec['backend'] = backend
             rec['model'] = model if isinstance(model, dict) else self._model_inputs(model)
             if self._nl_defs:
-                # the counter-model may be an artefact of the product abstraction: look for
-                # one that also satisfies the exact products (easier to replay natively)
-                exact = self._exact_model(neg)
-                if exact is not None:
+                # a counter-model under the product abstraction (an over-approximation) is not a
+                # refutation: decide again with the exact products
+                st, exact = self._exact_model(neg)
+                if st == 'sat':
                     rec['model'] = exact
                     rec['model_exact_products'] = True
+                elif st == 'unsat':
+                    rec['status'] = 'discharged'
+                    rec['backend'] = 'z3-nla'
+                    del rec['model']
+                else:
+                    rec['status'] = 'undecided'
+                    rec['backend'] = 'z3-nla'
+                    rec['reason'] = 'counter-model only under the product abstraction; exact products undecided'
+                    del rec['model']
         else:
             r2, model = (('skipped (uninterpreted bit operations)', None) if self._has_bitops
                          else self._second_opinion(neg))
@@ -826,11 +835,13 @@ class Engine(object):
             s.add(neg)
             for p, ta, tb in self._nl_defs:
                 s.add(p == ta * tb)
-            if s.check() == z3.sat:
-                return self._model_inputs(s.model())
+            r = s.check()
+            if r == z3.sat:
+                return 'sat', self._model_inputs(s.model())
+            return ('unsat' if r == z3.unsat else 'unknown'), None
         except z3.Z3Exception:
             pass
-        return None
+        return 'unknown', None
 
     def _second_opinion(self, neg):
         """Ask cvc5 about pc & neg; returns ('unsat'|'sat'|'unknown'|..., None)."""
@@ -919,6 +930,13 @@ class Engine(object):
             return mk_int(ta * tb * (ca * cb)) if ca * cb != 1 else mk_int(ta * tb)
         key = tuple(sorted((ta.sexpr(), tb.sexpr())))
         p = self._nl.get(key)
+        if p is None:
+            # factors that are provably equal (on this path) to those of an existing atom share it
+            for q, ua, ub in self._nl_defs:
+                if (self._check(z3.Not(z3.And(ta == ua, tb == ub))) == z3.unsat or
+                        self._check(z3.Not(z3.And(ta == ub, tb == ua))) == z3.unsat):
+                    self._nl[key] = p = q
+                    break
         if p is None:
             p = z3.Int('~mul%d' % len(self._nl))
             self._nl[key] = p
